@@ -11,7 +11,7 @@ def project():
     f = {}
     f["src/chain.f90"] = ("module chain\n  implicit none\ncontains\n" +
                           "".join(f"  subroutine p{i}()\n    call p{i+1}()\n  end subroutine p{i}\n" for i in range(1, 5)) +
-                          "  subroutine p5()\n    call p1()\n    call lonely()\n  end subroutine p5\n  subroutine lonely()\n    !! graph: false\n  end subroutine lonely\nend module chain\n")
+                          "  subroutine p5()\n    call p1()\n    call lonely()\n    call shy()\n  contains\n    subroutine shy()\n      !! graph: false\n      call p1()\n    end subroutine shy\n  end subroutine p5\n  subroutine lonely()\n    !! graph: false\n  end subroutine lonely\nend module chain\n")
     f["src/uses.f90"] = ("module base\nend module base\nmodule left\n  use base\nend module left\nmodule right\n  use base\nend module right\n"
                          "module top\n  use left\n  use right\n  use quiet\nend module top\nmodule quiet\n  !! graph: false\n  use base\nend module quiet\n")
     f["src/types.f90"] = ("module types\n  implicit none\n  type :: t0\n    integer :: a\n  end type t0\n  type, extends(t0) :: t1\n  end type t1\n  type, extends(t1) :: t2\n    type(t0) :: comp\n  end type t2\n"
@@ -122,7 +122,7 @@ def check(proj, gm, maxdepth, maxnodes):
     if any(e.name in ("lonely", "quiet") for e in gm.graph_objs):
         bad.append("entity with `graph: false` was registered for graphs")
     # ... and has no node in the project-wide graphs either, although other entities refer to it
-    for gname, hidden in (("callgraph", "lonely"), ("usegraph", "quiet")):
+    for gname, hidden in (("callgraph", "lonely"), ("callgraph", "shy"), ("usegraph", "quiet")):
         g = getattr(gm, gname, None)
         if g is not None and hasattr(g, "dot"):
             nodes, edges = parse_dot(g.dot.source)
